@@ -874,3 +874,275 @@ Section Limits.
     - destruct parsed as [g|]; [exfalso; eapply Hnc; reflexivity|]. cbn. intros [= <-]. exact H.
   Qed.
 End Limits.
+
+(* ---- the statements about entries and histories ----------------------------------------------------------- *)
+Lemma Lim_start sv : Lim (max_sessions sv) (max_channels sv) (nsess sv) (nchan sv) sv.
+Proof. split; [reflexivity|reflexivity|right; lia|right; lia]. Qed.
+
+(* One entry.  An entry that is not a configuration change leaves both limits alone, and afterwards each count
+   is at most the larger of its old value and the limit (0 = unlimited): a creation happens only below the limit,
+   and a count that is above a (lowered) limit can only shrink.  A configuration change replaces the limits and
+   leaves the counts alone — so "count <= limit" as such is not an invariant: the network configuration may set a
+   limit below the present count. *)
+Theorem limits_step e sv en sv' :
+  entry_result (apply_entry e sv en) = Some sv' ->
+  (max_sessions sv = 0 \/ nsess sv' <= N.max (nsess sv) (max_sessions sv))%N /\
+  (max_channels sv = 0 \/ nchan sv' <= N.max (nchan sv) (max_channels sv))%N /\
+  match en with
+  | EConfig _ _ _ (Some g) =>
+      max_sessions sv' = g_maxSessions g /\ max_channels sv' = g_maxChannels g /\ nsess sv' = nsess sv /\ nchan sv' = nchan sv
+  | _ => max_sessions sv' = max_sessions sv /\ max_channels sv' = max_channels sv
+  end.
+Proof.
+  intros Hr.
+  assert (Hgen : (forall id un rev g, en <> EConfig id un rev (Some g)) ->
+                 Lim (max_sessions sv) (max_channels sv) (nsess sv) (nchan sv) sv').
+  { intros Hnc. eapply Lim_apply_entry; [apply Lim_start|exact Hnc|exact Hr]. }
+  destruct en as [id un auth|id un session q|id un session cmid ra data|id un session cmid data|id un rev [g|]].
+  1-4,6: destruct Hgen as [h1 h2 h3 h4]; [intros; discriminate|]; (split; [exact h3|split; [exact h4|split; [exact h1|exact h2]]]).
+  cbn in Hr. injection Hr as <-. split; [right; unfold nsess; cbn; lia|]. split; [right; unfold nchan; cbn; lia|].
+  repeat split.
+Qed.
+
+(* createSessionLocked at the limit: ErrSessionLimitReached, nothing changes *)
+Lemma create_refused e sv id un auth :
+  max_sessions sv <> 0%N -> (max_sessions sv <= nsess sv)%N -> apply_entry e sv (ECreate id un auth) = OSessionLimit sv.
+Proof.
+  intros Hz Hle. cbn [apply_entry]. unfold create_session, bindM, getS, retM. cbv zeta. unfold max_sessions, nsess in *.
+  replace ((g_maxSessions (sv_config sv) <=? N.of_nat (size (sv_sessions sv)))%N) with true by (symmetry; apply N.leb_le; exact Hle).
+  replace ((0 <? g_maxSessions (sv_config sv))%N) with true by (symmetry; apply N.ltb_lt; lia). reflexivity.
+Qed.
+
+(* Histories: as long as no configuration change sets a limit below the count of that moment, the counts are
+   within the limits in every reachable state. *)
+Definition within_limits (sv : server) : Prop :=
+  (max_sessions sv = 0 \/ nsess sv <= max_sessions sv)%N /\ (max_channels sv = 0 \/ nchan sv <= max_channels sv)%N.
+Definition config_keeps (sv : server) (en : entry) : Prop :=
+  match en with
+  | EConfig _ _ _ (Some g) =>
+      (g_maxSessions g = 0 \/ nsess sv <= g_maxSessions g)%N /\ (g_maxChannels g = 0 \/ nchan sv <= g_maxChannels g)%N
+  | _ => True
+  end.
+Fixpoint configs_keep (e : env) (sv : server) (es : list entry) : Prop :=
+  match es with
+  | [] => True
+  | en :: r => config_keeps sv en /\ forall sv', entry_result (apply_entry e sv en) = Some sv' -> configs_keep e sv' r
+  end.
+
+Lemma within_init net : within_limits (init_server net).
+Proof. split; now left. Qed.
+
+Lemma within_step e sv en sv' :
+  within_limits sv -> config_keeps sv en -> entry_result (apply_entry e sv en) = Some sv' -> within_limits sv'.
+Proof.
+  intros [Ws Wc] Hk Hr. destruct (limits_step e sv en sv' Hr) as (Bs & Bc & Hm). unfold within_limits.
+  destruct en as [id un auth|id un session q|id un session cmid ra data|id un session cmid data|id un rev [g|]].
+  1-4,6: destruct Hm as [-> ->]; split; [destruct Ws as [?|?]; [now left|]; destruct Bs as [?|?]; [now left|right; lia]
+                                           |destruct Wc as [?|?]; [now left|]; destruct Bc as [?|?]; [now left|right; lia]].
+  destruct Hm as (-> & -> & -> & ->). exact Hk.
+Qed.
+
+Theorem limits_run e sv es sv' :
+  within_limits sv -> configs_keep e sv es -> run e sv es = Some sv' -> within_limits sv'.
+Proof.
+  revert sv. induction es as [|en es IH]; intros sv W Hk; cbn [run].
+  - intros [= <-]. exact W.
+  - destruct Hk as [Hen Hr]. destruct (entry_result (apply_entry e sv en)) as [sv1|] eqn:E; [|discriminate].
+    apply IH; [eapply within_step; eauto|apply Hr; reflexivity].
+Qed.
+
+Theorem limits_history e net es :
+  wf_history e (init_server net) es -> configs_keep e (init_server net) es ->
+  exists sv', run e (init_server net) es = Some sv' /\ within_limits sv'.
+Proof.
+  intros Hwf Hk. destruct (no_panic e net es Hwf) as (sv' & Hr & _). exists sv'. split; [exact Hr|].
+  eapply limits_run; [apply within_init|exact Hk|exact Hr].
+Qed.
+
+(* ==== examples ============================================================================================== *)
+Definition lim_config : config := Config 1 600000000000 500000000 2 1 "" "" false [] [] ∅ ∅ ∅.
+Definition lim_history : list entry :=
+  [ EConfig 1 1000 1 (Some lim_config);            (* MaxSessions = 2, MaxChannels = 1 *)
+    ECreate 2 2000 "0123456789abcdef";
+    ECreate 3 3000 "fedcba9876543210";
+    ECreate 4 4000 "0123456789abcdef";             (* refused *)
+    EMessage 5 5000 2 1 "" "NICK foo";
+    EMessage 6 6000 2 2 "" "USER foo 0 * :Foo";
+    EMessage 7 7000 2 3 "" "JOIN #a";
+    EMessage 8 8000 2 4 "" "JOIN #b" ].            (* refused *)
+
+Definition config_keeps_b (sv : server) (en : entry) : bool :=
+  match en with
+  | EConfig _ _ _ (Some g) =>
+      (N.eqb (g_maxSessions g) 0 || N.leb (nsess sv) (g_maxSessions g)) &&
+      (N.eqb (g_maxChannels g) 0 || N.leb (nchan sv) (g_maxChannels g))
+  | _ => true
+  end.
+Fixpoint configs_keep_b (e : env) (sv : server) (es : list entry) : bool :=
+  match es with
+  | [] => true
+  | en :: r => config_keeps_b sv en &&
+               match entry_result (apply_entry e sv en) with Some sv' => configs_keep_b e sv' r | None => true end
+  end.
+Lemma configs_keep_b_sound e sv es : configs_keep_b e sv es = true -> configs_keep e sv es.
+Proof.
+  revert sv. induction es as [|en es IH]; intros sv H; cbn [configs_keep configs_keep_b] in *; [exact Logic.I|].
+  apply andb_true_iff in H. destruct H as [H Hr]. split.
+  - destruct en as [| | | |id un rev [g|]]; cbn [config_keeps config_keeps_b] in *; try exact Logic.I.
+    apply andb_true_iff in H. destruct H as [H1 H2]. apply orb_true_iff in H1, H2.
+    rewrite !N.eqb_eq, !N.leb_le in *. tauto.
+  - intros sv' Hs. rewrite Hs in Hr. now apply IH.
+Qed.
+
+(* the hypotheses of [limits_history] hold of a history that sets limits and runs into both of them *)
+Example lim_history_ok :
+  wf_history ex_env (init_server "robustirc.net") lim_history /\ configs_keep ex_env (init_server "robustirc.net") lim_history.
+Proof. split; [apply wf_history_b_sound|apply configs_keep_b_sound]; vm_compute; reflexivity. Qed.
+
+(* the third CreateSession is refused (ErrSessionLimitReached, two sessions stay), the second JOIN is answered with
+   403 and creates no channel; evaluated inside the model *)
+Definition state_after (n : nat) (es : list entry) : option server := run ex_env (init_server "robustirc.net") (firstn n es).
+Definition lim_refusals_b : bool :=
+  match state_after 3 lim_history, state_after 7 lim_history, state_after 8 lim_history with
+  | Some sv3, Some sv7, Some sv8 =>
+      N.eqb (nsess sv3) 2 &&
+      match apply_entry ex_env sv3 (ECreate 4 4000 "0123456789abcdef") with
+      | OSessionLimit sv4 => N.eqb (nsess sv4) 2
+      | _ => false
+      end &&
+      N.eqb (nsess sv7) 2 && N.eqb (nchan sv7) 1 &&
+      match apply_entry ex_env sv7 (EMessage 8 8000 2 4 "" "JOIN #b") with
+      | OOk sv8' out =>
+          match map o_data out with [d] => String.eqb d ":robustirc.net 403 foo #b :No such channel" | _ => false end &&
+          N.eqb (nchan sv8') 1 && bool_decide (sv_channels sv8' !! "#b" = None) && bool_decide (is_Some (sv_channels sv8' !! "#a"))
+      | _ => false
+      end &&
+      N.eqb (nsess sv8) 2 && N.eqb (nchan sv8) 1 && N.eqb (max_sessions sv8) 2 && N.eqb (max_channels sv8) 1
+  | _, _, _ => false
+  end.
+Example lim_history_refusals : lim_refusals_b = true.
+Proof. vm_compute. reflexivity. Qed.
+
+(* names: [names_valid_history] applies to the first nine entries of [ex_history], and the state they reach has two
+   nicknamed sessions on one channel *)
+Example names_nonvacuous :
+  wf_history ex_env (init_server "robustirc.net") (firstn 9 ex_history) /\
+  match state_after 9 ex_history with
+  | Some sv' =>
+      N.eqb (nsess sv') 2 && bool_decide (sv_nicks sv' !! "foo" = Some (1%N, 0%N)) &&
+      bool_decide (sv_nicks sv' !! "bar" = Some (4%N, 0%N)) &&
+      match sv_channels sv' !! "#chan" with
+      | Some c => String.eqb (c_name c) "#Chan" && Nat.eqb (size (c_nicks c)) 2
+      | None => false
+      end
+  | None => false
+  end = true.
+Proof. split; [apply wf_history_b_sound|]; vm_compute; reflexivity. Qed.
+
+(* ---- what happens without the hypothesis on services NICK lines ----------------------------------------------- *)
+(* internal/ircserver/scmd_nick.go (cmdServerNick) stores msg.Params[0] as the nickname of the new pseudo-client
+   without calling IsValidNickname (cmd_nick.go and scmd_svsnick.go do call it).  An authenticated services link can
+   therefore introduce a name no client could own; such a line is outside [conforming] (cf_nick). *)
+Definition svc_config : config := Config 1 600000000000 500000000 0 0 "" "" false [] ["secret"] ∅ ∅ ∅.
+Definition bad_nick_history : list entry :=
+  [ EConfig 1 1000 1 (Some svc_config);
+    ECreate 2 2000 "0123456789abcdef";
+    EMessage 3 3000 2 1 "" "PASS services=secret";
+    EMessage 4 4000 2 2 "" "SERVER services.example.net 1 :Services";
+    EMessage 5 5000 2 3 "" "NICK 1bad,nick 1 1 svc services.example.net services.example.net 0 :Bad" ].
+
+Definition bad_nick_b : bool :=
+  match run ex_env (init_server "robustirc.net") bad_nick_history with
+  | Some sv' =>
+      match sv_sessions sv' !! (2%N, fnv64 "1bad,nick") with
+      | Some s => String.eqb (s_nick s) "1bad,nick" && negb (valid_nick (s_nick s)) &&
+                  bool_decide (sv_nicks sv' !! nick_to_lower (s_nick s) = Some (2%N, fnv64 "1bad,nick"))
+      | None => false
+      end
+  | None => false
+  end.
+Lemma bad_nick_b_true : bad_nick_b = true.
+Proof. vm_compute. reflexivity. Qed.
+
+Theorem names_refuted :
+  exists sv' (k : N * N) s,
+    run ex_env (init_server "robustirc.net") bad_nick_history = Some sv' /\
+    sv_sessions sv' !! k = Some s /\ s_nick s = "1bad,nick" /\ valid_nick (s_nick s) = false /\
+    sv_nicks sv' !! nick_to_lower (s_nick s) = Some k /\ ~ NV sv'.
+Proof.
+  pose proof bad_nick_b_true as Hb. unfold bad_nick_b in Hb.
+  destruct (run ex_env (init_server "robustirc.net") bad_nick_history) as [sv'|]; [|discriminate].
+  destruct (sv_sessions sv' !! (2%N, fnv64 "1bad,nick")) as [s|] eqn:Hs; [|discriminate].
+  apply andb_true_iff in Hb. destruct Hb as [Hb H3]. apply andb_true_iff in Hb. destruct Hb as [H1 H2].
+  apply String.eqb_eq in H1. apply negb_true_iff in H2. apply bool_decide_eq_true in H3.
+  exists sv', (2%N, fnv64 "1bad,nick"), s. repeat split; try assumption.
+  intros H. destruct (nv_nick _ H _ _ Hs) as [He|Hv]; [rewrite H1 in He; discriminate|congruence].
+Qed.
+
+(* ---- corollaries --------------------------------------------------------------------------------------------- *)
+(* validity alone needs neither well-formedness nor the base invariant: only the hypothesis on services NICK lines *)
+Corollary nv_history e net es sv' :
+  nick_history e (init_server net) es -> run e (init_server net) es = Some sv' -> NV sv'.
+Proof. apply nv_run, NV_init. Qed.
+
+(* at or above a limit nothing is created *)
+Corollary limits_full e sv en sv' :
+  entry_result (apply_entry e sv en) = Some sv' ->
+  (max_sessions sv <> 0%N -> (max_sessions sv <= nsess sv)%N -> (nsess sv' <= nsess sv)%N) /\
+  (max_channels sv <> 0%N -> (max_channels sv <= nchan sv)%N -> (nchan sv' <= nchan sv)%N).
+Proof.
+  intros Hr. destruct (limits_step e sv en sv' Hr) as (Bs & Bc & _). split; intros Hz Hle.
+  - destruct Bs as [?|?]; [contradiction|lia].
+  - destruct Bc as [?|?]; [contradiction|lia].
+Qed.
+
+(* a snapshot restore (Marshal + Unmarshal into a fresh instance) keeps both *)
+Lemma NV_reload sv : NV sv -> NV (reload sv).
+Proof.
+  intros H. split; cbn [reload sv_sessions sv_channels].
+  - intros k s'. rewrite lookup_fmap. destruct (sv_sessions sv !! k) as [s|] eqn:E; [|discriminate]. cbn. intros [= <-].
+    cbn. eapply nv_nick; eauto.
+  - apply H.
+Qed.
+Lemma within_limits_reload sv : within_limits sv -> within_limits (reload sv).
+Proof.
+  unfold within_limits, max_sessions, max_channels, nsess, nchan. cbn [reload sv_sessions sv_channels sv_config g_maxSessions g_maxChannels].
+  now rewrite map_size_fmap.
+Qed.
+
+(* ---- the statements in full, for Properties/C14.v -------------------------------------------------------------- *)
+Theorem C14_names_valid_stmt e net es :
+  wf_history e (init_server net) es ->
+  exists sv', run e (init_server net) es = Some sv' /\
+    (forall (k : N * N) s, sv_sessions sv' !! k = Some s ->
+       s_nick s = "" \/ (valid_nick (s_nick s) = true /\ sv_nicks sv' !! nick_to_lower (s_nick s) = Some k)) /\
+    (forall n (k : N * N), sv_nicks sv' !! n = Some k ->
+       exists s, sv_sessions sv' !! k = Some s /\ valid_nick (s_nick s) = true /\ nick_to_lower (s_nick s) = n) /\
+    (forall lc c, sv_channels sv' !! lc = Some c -> valid_chan (c_name c) = true /\ chan_to_lower (c_name c) = lc).
+Proof.
+  intros H. destruct (names_valid_history e net es H) as (sv' & Hr & [H1 H2 H3]). exists sv'. auto.
+Qed.
+
+Theorem C14_names_valid_any_history_stmt e net es sv' :
+  nick_history e (init_server net) es -> run e (init_server net) es = Some sv' ->
+  (forall (k : N * N) s, sv_sessions sv' !! k = Some s -> s_nick s = "" \/ valid_nick (s_nick s) = true) /\
+  (forall lc c, sv_channels sv' !! lc = Some c -> valid_chan (c_name c) = true).
+Proof. intros H Hr. destruct (nv_history e net es sv' H Hr) as [H1 H2]. split; assumption. Qed.
+
+Theorem C14_nonvacuous_stmt :
+  (wf_history ex_env (init_server "robustirc.net") lim_history /\ configs_keep ex_env (init_server "robustirc.net") lim_history /\
+   lim_refusals_b = true) /\
+  (wf_history ex_env (init_server "robustirc.net") (firstn 9 ex_history) /\
+   match state_after 9 ex_history with
+   | Some sv' =>
+       N.eqb (nsess sv') 2 && bool_decide (sv_nicks sv' !! "foo" = Some (1%N, 0%N)) &&
+       bool_decide (sv_nicks sv' !! "bar" = Some (4%N, 0%N)) &&
+       match sv_channels sv' !! "#chan" with
+       | Some c => String.eqb (c_name c) "#Chan" && Nat.eqb (size (c_nicks c)) 2
+       | None => false
+       end
+   | None => false
+   end = true).
+Proof.
+  split; [|exact names_nonvacuous]. destruct lim_history_ok as [H1 H2]. split; [exact H1|]. split; [exact H2|exact lim_history_refusals].
+Qed.
